@@ -1,4 +1,4 @@
-use crate::util::{get_crate_name, get_repr, IntegerRepr};
+use crate::util::{get_crate_name, get_repr, IntegerRepr, Modifier};
 use proc_macro2::TokenStream;
 use proc_macro_error2::abort;
 use quote::quote;
@@ -26,6 +26,9 @@ fn derive_align1_for_struct(
     crate_name: &TokenStream,
 ) -> TokenStream {
     let repr = get_repr(&derive_input.attrs);
+    if matches!(repr.modifier, Some(Modifier::Align(align)) if align > 1) {
+        abort!(derive_input, "Align1 cannot be derived with repr(align(N))");
+    }
     let ident = derive_input.ident;
     let mut gen = derive_input.generics;
     let wc = gen.make_where_clause();
@@ -51,6 +54,9 @@ fn derive_align1_for_enum(
     let repr = get_repr(&derive_input.attrs);
     if repr.repr.as_integer() != Some(IntegerRepr::U8) {
         abort!(derive_input, "Align1 requires repr(u8) for enums");
+    }
+    if matches!(repr.modifier, Some(Modifier::Align(align)) if align > 1) {
+        abort!(derive_input, "Align1 cannot be derived with repr(align(N))");
     }
 
     let ident = derive_input.ident;
